@@ -536,8 +536,18 @@ func (s *spec) block(w *engine.World, ctx sdk.Context, m *model, ev string, dt i
 	}
 	m.Reqs = live
 
-	// -- model, feed list: recomputed from the standing vote at every update block
+	// -- model, feed list: recomputed from the standing vote at every update block.  Neither the
+	// statement nor the README fixes whether the misses of an update block are judged against the
+	// outgoing or the incoming list, so a miss under the outgoing list (and its stamps) also counts.
+	var outgoingMiss [nVals]bool
 	if h%updateEvery == 0 {
+		for i := range m.V {
+			for _, f := range m.Feeds {
+				if m.V[i].Active && len(m.feedClauses(f, &m.V[i], now, h)) == 0 {
+					outgoingMiss[i] = true
+				}
+			}
+		}
 		nf := feedsFromVote(m.Vote)
 		keep := map[string]bool{}
 		for _, f := range nf {
@@ -594,7 +604,7 @@ func (s *spec) block(w *engine.World, ctx sdk.Context, m *model, ev string, dt i
 		case !v.Active && post[i].IsActive:
 			st.Violate("active-without-activate-message", "validator %d became active in the block end at t=%d h=%d", i, now, h)
 		case v.Active && !post[i].IsActive:
-			if len(vd[i].oracleMiss) == 0 && len(vd[i].feedsMiss) == 0 {
+			if len(vd[i].oracleMiss) == 0 && len(vd[i].feedsMiss) == 0 && !outgoingMiss[i] {
 				why := ""
 				if len(vd[i].oracleSpare) > 0 {
 					why = "oracle[" + strings.Join(uniq(vd[i].oracleSpare), ",") + "]"
@@ -616,6 +626,8 @@ func (s *spec) block(w *engine.World, ctx sdk.Context, m *model, ev string, dt i
 				st.Saw("deactivated:oracle+feeds")
 			case len(vd[i].oracleMiss) > 0:
 				st.Saw("deactivated:oracle")
+			case len(vd[i].feedsMiss) == 0:
+				st.Saw("deactivated:feeds:under-outgoing-list")
 			default:
 				st.Saw("deactivated:feeds")
 				if _, has := v.Prices[firstFeed(vd[i].feedsMiss)]; has {
@@ -739,23 +751,34 @@ func configs(quick bool) []Cfg {
 		}
 	}
 	var out []Cfg
+	all := []int{0, 1, 2, 3, 4}
+	// feeds clocks: every initial list x every distance to the next update block
 	for _, iv := range []int{1, 2, 3} {
 		for phase := 0; phase < 4; phase++ {
-			votes := []int{0, 1, 2, 3, 4}
-			out = append(out, Cfg{Name: fmt.Sprintf("feeds-v%d-p%d", iv, phase), Vals: []int{0}, InitVote: iv, Votes: votes, Phase: phase, Exp: 2,
-				MaxVote: 2, MaxPrice: 3, PriceOne: true, Dts: allDts, Depth: 8})
-			out = append(out, Cfg{Name: fmt.Sprintf("feeds-v%d-p%d-preact", iv, phase), Vals: []int{0}, PreAct: []int{0}, InitVote: iv, Votes: votes, Phase: phase, Exp: 2,
-				MaxVote: 2, MaxPrice: 3, PriceOne: true, Dts: allDts, Depth: 8})
+			c := Cfg{Name: fmt.Sprintf("feeds-v%d-p%d", iv, phase), Vals: []int{0}, InitVote: iv, Votes: all, Phase: phase, Exp: 2,
+				MaxVote: 2, MaxPrice: 3, PriceOne: true, Dts: allDts, Depth: 7}
+			if phase%2 == 1 {
+				c.Name += "-preact"
+				c.PreAct = []int{0}
+			}
+			out = append(out, c)
 		}
 	}
+	// deeper, with thinner alphabets (re-activation after a feeds deactivation, second update block)
+	out = append(out,
+		Cfg{Name: "feeds-deep-v1-p0", Vals: []int{0}, InitVote: 1, Votes: []int{2, 4}, Phase: 0, Exp: 2, MaxVote: 1, MaxPrice: 2, Dts: []int64{0, 3, 6, 12}, Depth: 9},
+		Cfg{Name: "feeds-deep-v2-p2-preact", Vals: []int{0}, PreAct: []int{0}, InitVote: 2, Votes: []int{1, 3}, Phase: 2, Exp: 2, MaxVote: 1, MaxPrice: 2, Dts: []int64{1, 3, 10, 12}, Depth: 9},
+		Cfg{Name: "feeds-deep-v3-p1-preact", Vals: []int{0}, PreAct: []int{0}, InitVote: 3, Votes: []int{0, 4}, Phase: 1, Exp: 2, MaxVote: 1, MaxPrice: 2, PriceOne: true, Dts: []int64{0, 1, 6, 10}, Depth: 9},
+		Cfg{Name: "feeds-deep-v1-p3", Vals: []int{0}, InitVote: 1, Votes: []int{3}, Phase: 3, Exp: 2, MaxVote: 1, MaxPrice: 2, Dts: []int64{0, 3, 10, 12}, Depth: 9},
+	)
 	for _, exp := range []uint64{1, 2, 3} {
-		out = append(out, Cfg{Name: fmt.Sprintf("oracle-exp%d", exp), Vals: []int{0, 1}, InitVote: 0, Phase: 0, Exp: exp, MaxReq: 3, Dts: []int64{0, 1, 3, 10}, Depth: 9})
-		out = append(out, Cfg{Name: fmt.Sprintf("oracle-exp%d-preact", exp), Vals: []int{0, 1}, PreAct: []int{0, 1}, InitVote: 0, Phase: 1, Exp: exp, MaxReq: 3, Dts: []int64{0, 1, 3, 10}, Depth: 9})
+		out = append(out, Cfg{Name: fmt.Sprintf("oracle-exp%d", exp), Vals: []int{0, 1}, InitVote: 0, Phase: 0, Exp: exp, MaxReq: 3, Dts: []int64{0, 1, 3, 10}, Depth: 8})
+		out = append(out, Cfg{Name: fmt.Sprintf("oracle-exp%d-preact", exp), Vals: []int{0, 1}, PreAct: []int{0, 1}, InitVote: 0, Phase: 1, Exp: exp, MaxReq: 3, Dts: []int64{0, 1, 3, 10}, Depth: 8})
 	}
 	for _, iv := range []int{1, 3} {
 		for _, exp := range []uint64{1, 2} {
 			out = append(out, Cfg{Name: fmt.Sprintf("both-v%d-exp%d", iv, exp), Vals: []int{0, 1}, PreAct: []int{1}, InitVote: iv, Votes: []int{0, 2, 4}, Phase: 1, Exp: exp,
-				MaxReq: 2, MaxVote: 1, MaxPrice: 3, PriceOne: true, Dts: []int64{0, 1, 3, 6, 10, 12}, Depth: 8})
+				MaxReq: 2, MaxVote: 1, MaxPrice: 3, PriceOne: true, Dts: allDts, Depth: 7})
 		}
 	}
 	return out
@@ -770,13 +793,18 @@ func init() {
 				"committee of a request (RequestedValidators) and acceptance of reports / price submissions are taken as given (C09, C01, C06); the reference records a report or a price iff the transaction succeeded",
 				"the statement is one-directional: only 'deactivated => genuine miss', 'activate accepted => inactive and penalty elapsed', 'active => activated by message' and 'status changes only by MsgActivate or in a block end' are asserted; a genuine miss that does not deactivate, or a permitted MsgActivate that is refused, is only recorded (labels genuine-miss-not-deactivated:*, act:rejected-although-permitted:*)",
 				"'active before the request was made' is read on block timestamps as since < request time (equal timestamps do not count as before); 'grace period is over' as now > start+grace; 'no sufficiently recent price' as now > price time + interval; block-height fallback = grace/3 resp. interval/3 blocks (x/feeds/types/constant.go MaxGuaranteeBlockTime)",
+				"at an update block a miss may be judged against the outgoing or the incoming feed list (the order is not fixed by the statement)",
 				"a price submitted for a signal is forgotten by the reference when that signal leaves the current feed list (the lenient reading; the chain keeps it until the validator's next submission)",
 				"block times are whole seconds; dh = 1 for every block; Tx seam = ValidateBasic + message-router handler in a cache context (ante chain not executed)",
 			}
 			r.Required = required(r.Quick())
-			deadline := r.Deadline(5*time.Minute, 40*time.Minute)
-			for _, c := range configs(r.Quick()) {
-				sr := engine.Search(&spec{cfg: c}, engine.SearchOpts{Depth: c.Depth, Deadline: deadline, KeyStores: keyStores})
+			// the wall-clock cap is shared: every configuration gets an equal slice of what is left, so
+			// that a loaded machine thins every search instead of starving the last ones
+			end := r.Deadline(12*time.Minute, 40*time.Minute)
+			cfgs := configs(r.Quick())
+			for i, c := range cfgs {
+				slice := time.Until(end) / time.Duration(len(cfgs)-i)
+				sr := engine.Search(&spec{cfg: c}, engine.SearchOpts{Depth: c.Depth, Deadline: time.Now().Add(slice), KeyStores: keyStores})
 				r.AddSearch(c.Name, c, sr)
 				if len(r.Violations) > 0 {
 					break
@@ -797,7 +825,15 @@ func init() {
 
 func required(quick bool) []string {
 	return []string{
-		"act:ok:first", "act:ok:after-penalty", "act:oracle/16", "act:oracle/17",
-		"deactivated:oracle", "deactivated:feeds", "block:update",
+		// activation: first, refused while active, refused inside the penalty (also one second before
+		// its end), accepted after it (also exactly at its end)
+		"act:ok:first", "act:oracle/16", "act:oracle/17", "act:rejected:one-second-before-penalty-end",
+		"act:ok:after-penalty", "act:ok:exactly-at-penalty-end",
+		// both kinds of genuine miss, and every protecting clause observed alone (boundary cases)
+		"deactivated:oracle", "deactivated:feeds", "deactivated:feeds:no-price", "deactivated:feeds:stale-price",
+		"spared:oracle:reported", "spared:oracle:active-since-not-before-request",
+		"spared:feeds:only-activation-grace", "spared:feeds:only-update-grace-time", "spared:feeds:only-update-grace-blocks",
+		"spared:feeds:only-price-blocks",
+		"block:update", "block:update:list-changed", "req:ok", "rep:ok", "price:all:ok", "vote:ok",
 	}
 }
